@@ -223,7 +223,7 @@ def _default_event(c):
 
 
 # ---- Circuit.abort -----------------------------------------------------------------------------------------------------
-@contract('*.cancel', modifies=('cancel_requested',), result=BOOL, sig=([Param('self', Ref())], None, None), trusted='asyncio.Task.cancel',
+@contract('*.cancel', modifies=('cancel_requested',), result=BOOL, sig=([Param('self', Ref()), Param('msg', VAL, default=None)], None, None), trusted='asyncio.Task.cancel',
           traced=lambda a, st: rec('cancel', to_val(a['self'], st)))
 def _task_cancel(c):
     t = c.z('self')
